@@ -12,7 +12,9 @@ DESIGN_REF = "DESIGN.md §9 C06, §12.C06"
 COQ_TARGETS = ["Properties/C06", "Pins/C06"]
 THEOREMS = [("PdfV.Properties.C06", n) for n in [
     "C06_rc4_involution", "C06_rc4_bad_key", "C06_pkcs7", "C06_tables", "C06_from_password_rc4_refines", "C06_open_user_rc4",
-    "C06_open_owner_rc4", "C06_wrong_pw_rc4", "C06_accepted_iff_rc4", "C06_kdf_refines", "C06_plaintext", "C06_exempt", "C06_strf_refuted"]]
+    "C06_open_owner_rc4", "C06_wrong_pw_rc4", "C06_accepted_iff_rc4", "C06_kdf_refines", "C06_plaintext", "C06_exempt", "C06_strf_refuted",
+    "C06_from_password_56_refines", "C06_open_user_56", "C06_open_owner_56", "C06_wrong_pw_56", "C06_accepted_iff_56",
+    "C06_no_panic", "C06_decrypt_no_panic"]]
 ANCHORS = ["crypt.rs"]
 MODES = ["rc4", "crypt_open", "crypt_dec", "crypt_doc"]
 TRUSTED_BASE = ["coqc 8.16.1 kernel (vm_compute for table lemmas and witnesses; no native_compute)",
@@ -245,9 +247,13 @@ def malformed_open_cases(rng):
             mk(dict(b5, UE=h5.UE[:31], OE=h5.OE[:17]), pw=pw, tags=["odd-UE"], id0=h5.id0)
             mk(dict(b5, UE=h5.UE + h5.UE[:16], OE=h5.OE + h5.OE), pw=pw, tags=["long-UE"], id0=h5.id0, items=[(1, 0, rand_bytes(rng, 32))])
         if var[0] == 5:
-            mk(dict(b5, UE=b"", OE=b""), pw=b"u", tags=["empty-UE"], id0=h5.id0, items=[(1, 0, rand_bytes(rng, 32))])
-            mk(dict(b5, UE=b"", OE=b"", cf=[(b"StdCF", 1, 16)], V=4), pw=b"u", tags=["empty-UE-rc4"], id0=h5.id0, items=[(1, 0, b"xyz")])
-            mk(dict(b5, UE=b"", OE=b"", cf=[(b"StdCF", 1, 16)], V=4), pw=b"u", tags=["empty-UE-rc4"], id0=h5.id0, items=[])
+            # C06-d: an unwrapped file key that is not 32 bytes long is an error value (it used to reach the slice in Decoder::key())
+            mk(dict(b5, UE=b"", OE=b""), pw=b"u", tags=["empty-UE"], id0=h5.id0, items=[(1, 0, rand_bytes(rng, 32))], check=no_panic)
+            for m56 in (1, 2):
+                for ue in (b"", h5.UE[:16]):
+                    for its in ([(1, 0, b"xyz")], [(1, 0, rand_bytes(rng, 32))], []):
+                        mk(dict(b5, UE=ue, OE=ue, cf=[(b"StdCF", m56, 16)], V=4), pw=b"u", tags=["empty-UE-rc4"], id0=h5.id0, items=its,
+                           check=no_panic)
             mk(dict(b5, U=h5.U[:47]), pw=b"u", tags=["short-U"], id0=h5.id0)
             mk(dict(b5, O=h5.O + b"x"), pw=b"u", tags=["long-O"], id0=h5.id0)
             for pw in (b"\xff\xfe", b"\x07bell", "ا1".encode(), b"\xc3", b"a\x7f", "".encode(), "ȡ".encode()):
@@ -684,6 +690,10 @@ def witness_case(f, c):
     elif f["id"] == "C06-c":
         h = S.Handler(3, "V2", 16, b"user", b"owner", -4, b"0123456789abcdef", encrypt_metadata=False, V=2)
         w = doc_case(rng, h, with_meta=True, enc_indirect=True)
+    elif f["id"] == "C06-d":
+        h = S.Handler(5, "AESV3", 32, b"u", b"o", -4, b"0123456789abcdef", file_key=bytes(range(32)))
+        w = open_case(dict(spec_of(h), UE=b"", OE=b"", cf=[(b"StdCF", 1, 16)], V=4), h.id0, b"u", [(1, 0, b"xyz")],
+                      check=lambda r: None if r[0] == "ERR" else "a file key that is not 32 bytes long must be an error: %s %s" % (r[0], r[1]))
     elif f["id"] == "C06-b":
         h = S.Handler(4, "V2", 16, b"user", b"owner", -4, b"0123456789abcdef", V=4)
         w = doc_case(rng, h, with_meta=False, strf_identity=True, tags=["strf-identity"])
